@@ -55,6 +55,8 @@ def builtin_families():
          ("CallWithKwargs", V("f"), T(X), ("map", ("k", C(1)), ("i", Y))),
          ("CallWithKwargs", V("f"), T(X), ("map", ("j", Y), ("k", C(1)))),      # other order
          ("CallWithKwargs", V("f"), T(X), ("dict", ("k", C(1)), ("j", Y))),     # plain dict
+         ("CallWithKwargs", V("f"), T(X), ("mproxy", ("k", C(1)), ("j", Y))),   # other Mappings
+         ("CallWithKwargs", V("f"), T(X), ("userdict", ("j", Y), ("k", C(1)))),
          ("CallWithKwargs", V("f"), T(X), ("map", ("k", C(1.0)), ("j", Y)))])
     add("Subscript", ("Subscript", V("a"), X),
         [("Subscript", V("b"), X), ("Subscript", V("a"), Y), ("Subscript", V("a"), T(X)),
@@ -385,7 +387,12 @@ class C01(Check):
         def hist():
             for nm in names:
                 yield ("hist", nm)
-        return [("pairs", pool_items), ("immutability", immut), ("histories", hist)]
+        def classdefs():
+            import vf.usercls_gen as u
+            for nm in u.EXPECTED:
+                yield ("classdef", nm)
+        return [("class-definitions", classdefs), ("pairs", pool_items),
+                ("immutability", immut), ("histories", hist)]
 
     def pool(self):
         fams = all_families()
@@ -401,6 +408,15 @@ class C01(Check):
     def check_item(self, family, item, tier):
         r = Res()
         kind = item[0]
+        if kind == "classdef":
+            import vf.usercls_gen as u
+            r.evals += 1
+            r.keys.append(item)
+            if item[1] in u.BROKEN:
+                r.fail("class-definition-raises", f"class-definition-raises|{item[1]}",
+                       f"defining the user node class {item[1]} (see vf/usercls_gen.py) raised "
+                       f"{u.BROKEN[item[1]]}")
+            return r
         if kind == "pairs":
             pool = self.pool()
             objs = [(nm, build(s)) for nm, s in pool]
